@@ -64,6 +64,10 @@ Definition call := (bool * nat * list (option term))%type.
 
 Inductive jres := JOk | JFail (e : ferr).
 
+(* events a task's emitter receives while the job runs (templates/flow/task.go.tmpl) *)
+Inductive tev := EvSuccess | EvError (e : ferr) | EvErrorRecovered (e : ferr)
+               | EvPanic (e : ferr) | EvPanicRecovered (e : ferr) | EvDone.
+
 Definition known (l : list (option term)) : list term :=
   flat_map (fun o => match o with Some v => [v] | None => [] end) l.
 
@@ -83,6 +87,7 @@ Section Op.
     je_outs : option (list term);      (* values assigned to the task's output variables *)
     je_flag : bool; je_panic : bool;   (* predicate job: p = true / pPanicRecover set *)
     je_calls : list call;              (* user functions called *)
+    je_events : list tev;              (* what the task's emitter is told, in order *)
     je_res : jres                      (* what the job returns to the scheduler *)
   }.
 
@@ -90,33 +95,34 @@ Section Op.
     match x with
     | FP k =>
         match kpred (taskof f k) with
-        | None => {| je_outs := None; je_flag := false; je_panic := false; je_calls := []; je_res := JOk |}
+        | None => {| je_outs := None; je_flag := false; je_panic := false; je_calls := []; je_events := []; je_res := JOk |}
         | Some pins =>
             let args := map (slot st) pins in
             {| je_outs := None;
                je_flag := match sc_pred sc k with PTRUE => true | _ => false end;
                je_panic := match sc_pred sc k with PPANIC => true | _ => false end;
-               je_calls := [(true, k, args)]; je_res := JOk |}
+               je_calls := [(true, k, args)]; je_events := []; je_res := JOk |}
         end
     | FT k =>
         let tk := taskof f k in
         let has_pred := match kpred tk with Some _ => true | None => false end in
-        let mk o c r := {| je_outs := o; je_flag := false; je_panic := false; je_calls := c; je_res := r |} in
+        let mk o c ev r := {| je_outs := o; je_flag := false; je_panic := false; je_calls := c; je_events := ev; je_res := r |} in
         if has_pred && ppanic st k then
           (* "if !p { return nil }", then the deferred handler finds p..PanicRecover *)
-          if kfallback tk then mk (Some (fallback_vals k)) [] JOk
-          else mk None [] (JFail (FPredPanic k))
+          if kfallback tk then mk (Some (fallback_vals k)) [] [EvPanicRecovered (FPredPanic k)] JOk
+          else mk None [] [EvPanic (FPredPanic k)] (JFail (FPredPanic k))
         else if has_pred && negb (pflag st k) then
           (* the outputs keep their zero values *)
-          mk (Some (zero_vals k)) [] JOk
+          mk (Some (zero_vals k)) [] [] JOk
         else
           let args := map (slot st) (kins tk) in
           match sc_task sc k with
-          | OOK => mk (Some (map (fun i => TmOut k i (known args)) (seq 0 (length (kouts tk))))) [(false, k, args)] JOk
-          | OERR => if kfallback tk then mk (Some (fallback_vals k)) [(false, k, args)] JOk
-                    else mk None [(false, k, args)] (JFail (FErr k))
-          | OPANIC => if kfallback tk then mk (Some (fallback_vals k)) [(false, k, args)] JOk
-                      else mk None [(false, k, args)] (JFail (FPanic k))
+          | OOK => mk (Some (map (fun i => TmOut k i (known args)) (seq 0 (length (kouts tk))))) [(false, k, args)]
+                      [EvSuccess; EvDone] JOk
+          | OERR => if kfallback tk then mk (Some (fallback_vals k)) [(false, k, args)] [EvErrorRecovered (FErr k); EvDone] JOk
+                    else mk None [(false, k, args)] [EvError (FErr k); EvDone] (JFail (FErr k))
+          | OPANIC => if kfallback tk then mk (Some (fallback_vals k)) [(false, k, args)] [EvPanicRecovered (FPanic k); EvDone] JOk
+                      else mk None [(false, k, args)] [EvPanic (FPanic k); EvDone] (JFail (FPanic k))
           end
     end.
 
@@ -165,6 +171,25 @@ Section Op.
   Definition flow_error (e : exec) : list ferr := xfail e.
   Definition results (e : exec) : option (list (option term)) :=
     match xfail e with [] => Some (map (slot (xstore e)) (gresults f)) | _ => None end.
+
+  (* the events of the whole directive (templates/flow/flow.go.tmpl): what the tasks'
+     emitters were told while the jobs ran, then the flow's outcome, then - from the
+     deferred functions - TaskSkipped for every task whose function was not invoked, and
+     FlowDone last. ret is the error the directive returns. *)
+  Inductive fev := FvTask (k : nat) (t : tev) | FvSkipped (k : nat)
+                 | FvSuccess | FvError (e : ferr) | FvDone.
+
+  Definition invoked (e : exec) (k : nat) : bool :=
+    existsb (fun p => match fst p with
+                      | FT k' => Nat.eqb k' k && match je_calls (snd p) with [] => false | _ => true end
+                      | FP _ => false
+                      end) (xlog e).
+
+  Definition flow_events (e : exec) (ret : option ferr) : list fev :=
+    flat_map (fun p => match fst p with FT k => map (FvTask k) (je_events (snd p)) | FP _ => [] end) (xlog e)
+    ++ [match ret with None => FvSuccess | Some er => FvError er end]
+    ++ map FvSkipped (filter (fun k => negb (invoked e k)) (seq 0 (length (gtasks f))))
+    ++ [FvDone].
 
   (* a canonical schedule: repeatedly run the first job that may run; stop at a failure *)
   Fixpoint canon (fuel : nat) (e : exec) : list fid :=
